@@ -1,7 +1,8 @@
 (* Lattice/RotPlanarBounded.v — P<=B theorems for the rotated planar family, closed by vm_compute.
    Bound: every size rows, cols in 3..9 (49 sizes, non-square and even/odd combinations included). *)
 From Coq Require Import List Bool Arith ZArith Lia.
-From QV Require Import Core.Bits Core.Pauli Core.Symp Core.Code Generated.LatticeArith Lattice.RotPlanar.
+From QV Require Import Core.Bits Core.Pauli Core.Symp Core.Code Core.Span Core.Rank Core.Dist Core.DistCSS
+  Generated.LatticeArith Lattice.RotPlanar.
 Import ListNotations.
 Local Open Scope Z_scope.
 
@@ -122,3 +123,69 @@ Proof. exact (rp_upto 9 _ rotplanar_logical_weights_upto_9_b). Qed.
 Example rotplanar_ex_3x5 : validate (rotplanar_code 3 5) = VOk /\ length (stabs (rotplanar_code 3 5)) = 14%nat /\
   rp_plaquette_indices 3 3 = [(1, -1); (0, 0); (1, 1); (0, 2); (-1, 0); (1, 0); (0, 1); (2, 1)].
 Proof. vm_compute. auto. Qed.
+
+(* ---- GF(2) ranks (sound certificate checker Core/Rank.rank_check): the stabilizer matrix has rank n-k and the
+        stabilizers together with the 2k logicals have rank n+k ---- *)
+Definition rc_rank_b (nkd : Z * Z * Z) (c : code) : bool :=
+  let '(n, k, _) := nkd in
+  rank_check (Z.to_nat (2 * n)) (stabs c) (Z.to_nat (n - k)) &&
+  rank_check (Z.to_nat (2 * n)) (stabs c ++ logicals c) (Z.to_nat (n + k)).
+Definition rc_rank (nkd : Z * Z * Z) (c : code) : Prop :=
+  let '(n, k, _) := nkd in
+  rank_is (Z.to_nat (2 * n)) (stabs c) (Z.to_nat (n - k)) /\
+  rank_is (Z.to_nat (2 * n)) (stabs c ++ logicals c) (Z.to_nat (n + k)).
+Lemma rc_rank_b_spec nkd c : rc_rank_b nkd c = true -> rc_rank nkd c.
+Proof.
+  destruct nkd as [[n k] d]. unfold rc_rank_b, rc_rank. rewrite andb_true_iff. intros [H1 H2].
+  split; now apply rank_check_sound.
+Qed.
+Definition rp_rank_b (s : Z * Z) : bool := rc_rank_b (rotplanar_n_k_d (fst s) (snd s)) (rotplanar_code (fst s) (snd s)).
+Lemma rotplanar_rank_upto_9_b : forallb rp_rank_b (rp_sizes 9) = true.
+Proof. vm_compute. reflexivity. Qed.
+Theorem rotplanar_rank_upto_9 : forall rows cols, 3 <= rows <= 9 -> 3 <= cols <= 9 ->
+  rc_rank (rotplanar_n_k_d rows cols) (rotplanar_code rows cols).
+Proof. intros rows cols Hr Hc. apply rc_rank_b_spec. exact (rp_upto 9 _ rotplanar_rank_upto_9_b rows cols Hr Hc). Qed.
+
+(* ---- C08: the advertised d is the minimum distance (Core/Dist.is_distance), decided by the verified CSS
+        procedure: v = the lighter supplied logical (weight d, separated from the stabilizer group by its
+        conjugate logical l), and no non-trivial normalizer element of weight < d.
+        Bound: rows, cols in 3..6 except 6x6 (15 sizes; 6x6 needs 2 x 443k supports x 35 generators in-kernel) ---- *)
+Definition rc_dist_b (nkd : Z * Z * Z) (c : code) (v l : bsf) : bool :=
+  let '(n, _, d) := nkd in css_distance_check (Z.to_nat n) (stabs c) (Z.to_nat d) v l.
+Definition rc_dist (nkd : Z * Z * Z) (c : code) : Prop :=
+  let '(n, _, d) := nkd in is_distance (Z.to_nat n) (stabs c) (Z.to_nat d).
+Lemma rc_dist_b_spec nkd c v l : rc_dist_b nkd c v l = true -> rc_dist nkd c.
+Proof. destruct nkd as [[n k] d]. unfold rc_dist_b, rc_dist. apply css_distance_check_sound. Qed.
+Definition rp_dist_b (s : Z * Z) : bool :=
+  let '(r, c) := s in
+  let lx := hd [] (rp_logical_xs r c) in
+  let lz := hd [] (rp_logical_zs r c) in
+  if c <=? r then rc_dist_b (rotplanar_n_k_d r c) (rotplanar_code r c) lx lz
+  else rc_dist_b (rotplanar_n_k_d r c) (rotplanar_code r c) lz lx.
+Definition rp_dist_sizes : list (Z * Z) := filter (fun s => negb ((fst s =? 6) && (snd s =? 6))) (rp_sizes 6).
+Lemma rotplanar_distance_upto_6x5_b : forallb rp_dist_b rp_dist_sizes = true.
+Proof. vm_compute. reflexivity. Qed.
+Theorem rotplanar_distance_upto_6x5 : forall rows cols, 3 <= rows <= 6 -> 3 <= cols <= 6 -> Z.min rows cols <= 5 ->
+  rc_dist (rotplanar_n_k_d rows cols) (rotplanar_code rows cols).
+Proof.
+  intros rows cols Hr Hc Hm.
+  assert (Hin : In (rows, cols) rp_dist_sizes).
+  { unfold rp_dist_sizes. apply filter_In. split; [apply rp_sizes_In; lia|]. cbn [fst snd].
+    destruct (Z.eqb_spec rows 6), (Z.eqb_spec cols 6); cbn; auto. lia. }
+  pose proof (proj1 (forallb_forall _ _) rotplanar_distance_upto_6x5_b _ Hin) as H. unfold rp_dist_b in H.
+  destruct (cols <=? rows); eapply rc_dist_b_spec; exact H.
+Qed.
+Definition rotplanar_distance_statement : Prop := forall rows cols, 3 <= rows -> 3 <= cols ->
+  rc_dist (rotplanar_n_k_d rows cols) (rotplanar_code rows cols).
+Definition rotplanar_distance_partial := rotplanar_distance_upto_6x5.
+
+(* ---- full statements (all sizes) and the proved parts ---- *)
+Definition rotplanar_valid_statement : Prop := forall rows cols, 3 <= rows -> 3 <= cols ->
+  validate (rotplanar_code rows cols) = VOk /\ rc_shape (rotplanar_n_k_d rows cols) (rotplanar_code rows cols) 0.
+Theorem rotplanar_valid_partial : forall rows cols, 3 <= rows <= 9 -> 3 <= cols <= 9 ->
+  validate (rotplanar_code rows cols) = VOk /\ rc_shape (rotplanar_n_k_d rows cols) (rotplanar_code rows cols) 0.
+Proof.
+  intros rows cols Hr Hc. split; [|now apply rotplanar_shapes_upto_9].
+  pose proof (rp_upto 9 _ rotplanar_valid_upto_9_b rows cols Hr Hc) as H. unfold rp_valid_b, validb in H. cbn [fst snd] in H.
+  destruct (validate (rotplanar_code rows cols)); try discriminate. reflexivity.
+Qed.
